@@ -300,6 +300,12 @@ func checkC18(c C18Case, r *Rec) *Violation {
 				continue
 			}
 		}
+		if !Agrees(o, want, werr) && o.Err != nil && werr == nil && (m.IsAnd(c.Op) || m.IsOr(c.Op)) && hasNonBool(c.Args) {
+			// an and/or with an operand of the wrong type that reports an error where short-circuit evaluation
+			// would have let an absorbing operand decide: "wrong operand types ... yield errors" - both are right
+			r.Class("ill-typed-and-or:error-where-an-absorbing-operand-could-decide")
+			continue
+		}
 		if !Agrees(o, want, werr) {
 			if werr != nil && knownAndOrNonBool(c.Op, evaluationOrderArgs(src, vars, mask, c.Args), o) && r.KnownHit("C18", "C18-andor-nonbool-before-last") {
 				continue
@@ -463,3 +469,12 @@ var propC18 = Prop[C18Case]{
 
 func TestC18(t *testing.T)       { Run(t, propC18) }
 func TestC18Replay(t *testing.T) { Replay(t, propC18) }
+
+func hasNonBool(args []m.V) bool {
+	for _, a := range args {
+		if _, ok := a.X.(bool); !ok {
+			return true
+		}
+	}
+	return false
+}
